@@ -65,7 +65,9 @@ def write_case(d, asms, assign, gap_model='flow', core_len=0.4, pitch=0.030, set
         lines += ['        ' + s for s in a.get('subsections', ())]
     lines += ['[Assignment]', '    [[ByPosition]]']
     for (n, r, p, bc) in assign:
-        lines.append('        %s = %d, %d, %d, %s' % (n, r, p, p, bc))
+        # p: one position, or (first, last) for an assignment line spanning several positions of the ring
+        p1, p2 = p if isinstance(p, tuple) else (p, p)
+        lines.append('        %s = %d, %d, %d, %s' % (n, r, p1, p2, bc))
     if orificing:
         lines += ['[Orificing]'] + ['    ' + s for s in orificing]
     lines += list(extra_sections)
@@ -75,8 +77,10 @@ def write_case(d, asms, assign, gap_model='flow', core_len=0.4, pitch=0.030, set
     cells = power_cells or [(0.0, core_len)]
     rows = []
     for (n, r, p, bc) in assign:
+      p1, p2 = p if isinstance(p, tuple) else (p, p)
+      for pp in range(p1, p2 + 1):
         a = asms[n]
-        aid = asm_index(r, p) + 1          # the reader wants base-1 assembly ids
+        aid = asm_index(r, pp) + 1          # the reader wants base-1 assembly ids
         npin = 3 * a['n'] * (a['n'] - 1) + 1
         nsc = 6 * (a['n'] ** 2 - a['n'] + 1)
         nd = 6 * a['n'] * (len(a['ftf']) // 2)
